@@ -51,7 +51,7 @@ def run(chk, repo: Repo):
 POSTERIOR_BUILDERS = {
     # (module, function) -> why a Posterior may be constructed there
     ("cuqi/distribution/_joint_distribution.py", "_reduce_to_single_density"): "the reduction itself; the result goes through _add_constants_to_density",
-    ("cuqi/sampler/_rto.py", "__init__"): "legacy LinearRTO builds likelihood and prior from the user's 5-tuple; no reduced density is involved",
+    ("cuqi/sampler/_rto.py", "LinearRTO"): "legacy LinearRTO builds likelihood and prior from the user's 5-tuple (constructor or a private helper of it); no reduced density is involved",
 }
 
 
@@ -66,6 +66,10 @@ def _r2_posterior_builders(chk, repo):
             if isinstance(c, ast.Call) and (call_name(c) or "").split(".")[-1] == "Posterior" and len(c.args) + len(c.keywords) >= 2:
                 ef = enclosing_function(c)
                 key = (m.rel, ef.name if ef else "<module>")
+                from ..index import enclosing_class
+                ec = enclosing_class(c)
+                if ec is not None and (m.rel, ec.name) in POSTERIOR_BUILDERS:
+                    key = (m.rel, ec.name)            # tabled per class: which method of the class holds the construction is free
                 n += 1
                 wrapped = isinstance(getattr(c, "_parent", None), ast.Call) and (call_name(c._parent) or "").endswith("_add_constants_to_density")
                 ok = key in POSTERIOR_BUILDERS or wrapped
